@@ -246,4 +246,72 @@ def wireCells (rows : Nat) : ColumnData → Option (List Val)
   | .str d => if d.length = rows then some (d.map .str) else none
   | .mixed d => if d.length = rows then some d else none
 
+/-! ### Client buffering (`src/logging_client/mod.rs`) and the server's `/insert_bin` (`src/server/mod.rs`) -/
+
+/-- `EventBuffer.tables` (association list; the dump sorts by table name). -/
+abbrev Buffer := List (String × Table)
+
+/-- `LoggingClient::log(table, row)` after the buffer-size gate:
+    `events.tables.entry(table.to_string()).or_default().push_row_and_timestamp(row)`. -/
+def logEvent : Buffer → String → List (String × Val) → Nat → Except Fault Buffer
+  | [], tname, row, clock =>
+    match pushRow Table.new row clock with
+    | .error f => .error f
+    | .ok t => .ok [(tname, t)]
+  | (k, t) :: rest, tname, row, clock =>
+    if k = tname then
+      match pushRow t row clock with
+      | .error f => .error f
+      | .ok t' => .ok ((k, t') :: rest)
+    else
+      match logEvent rest tname row clock with
+      | .error f => .error f
+      | .ok r => .ok ((k, t) :: r)
+
+/-- One logged event: table, row, clock bits. -/
+abbrev Event := String × List (String × Val) × Nat
+
+def logAll : Buffer → List Event → Except Fault Buffer
+  | b, [] => .ok b
+  | b, (tname, row, clock) :: rest =>
+    match logEvent b tname row clock with
+    | .error f => .error f
+    | .ok b' => logAll b' rest
+
+/-- `BackgroundWorker::create_request_data`: nothing happens while a request is still pending or when the
+    buffer holds no table; otherwise the whole buffer becomes the request body (`buffer.serialize()`, identity
+    here) and `buffer.tables.clear()`.  Result: (pending request, buffer). -/
+def createRequestData (pending : Option Buffer) (b : Buffer) : Option Buffer × Buffer :=
+  match pending with
+  | some p => (some p, b)
+  | none => if b.isEmpty then (none, b) else (some b, [])
+
+/-- A client session: `log` calls interleaved with worker ticks whose POST succeeds (`request_data.take()`).
+    Returns the request bodies in sending order and the buffer left over. -/
+inductive Step where
+  | log (e : Event)
+  | tick
+
+def session : Buffer → List Step → Except Fault (List Buffer × Buffer)
+  | b, [] => .ok ([], b)
+  | b, .log (tname, row, clock) :: rest =>
+    match logEvent b tname row clock with
+    | .error f => .error f
+    | .ok b' => session b' rest
+  | b, .tick :: rest =>
+    match createRequestData none b with
+    | (some msg, b') =>
+      match session b' rest with
+      | .error f => .error f
+      | .ok (msgs, fin) => .ok (msg :: msgs, fin)
+    | (none, b') => session b' rest
+
+/-- `/insert_bin`: `EventBuffer::deserialize` (identity) and, per table, `from_column_data(col, table.len)`
+    as done by `ingest_efficient`. -/
+def serverTables (msg : Buffer) : Except Fault (List (String × Nat × List (String × InputColumn))) :=
+  msg.mapM fun (tname, t) =>
+    match serverColumns t with
+    | .error f => .error f
+    | .ok cols => .ok (tname, t.len, cols)
+
 end LM.Wire.EventBuffer
